@@ -78,7 +78,7 @@ def run_conn(ctx, props):
     exprs = []
     for c in cases:
         table = C.coq_list(["(%s, %s)" % (C.coq_bytes(a), C.coq_bytes(b)) for a, b in c["upper"]])
-        exprs.append("conn_expected %s (split_sizes %s %s)" % (table, C.coq_bytes(c["stream"]), C.coq_list([str(x) for x in c["sizes"]])))
+        exprs.append("conn_expected %s (split_sizes %s %s)" % (table, C.coq_bytes_rle(c["stream"]), C.coq_list([str(x) for x in c["sizes"]])))
     results = []
     B = 60
     for k in range(0, len(exprs), B):
